@@ -28,6 +28,9 @@ pub enum Profile {
     /// code (each level holds 2 internal nodes and 6 leaves): deep codes that differ in their
     /// first digit. The parameter is the number of chains (only 2 is built).
     DeepChains(u8),
+    /// one symbol occurs exactly min(2^lg + plus, n - (d-1)) times, the others share the rest
+    /// evenly: counts just above a power of two (count arithmetic in narrow integer types)
+    DominantAt(u8, u16),
 }
 
 #[derive(Clone, Copy, Debug, PartialEq, Eq, Hash, Serialize, Deserialize)]
@@ -253,6 +256,18 @@ impl Recipe {
         if let Profile::DeepChains(c) = self.profile {
             return deep_chain_counts(self.n, d, c as usize);
         }
+        if let Profile::DominantAt(lg, plus) = self.profile {
+            // a single symbol takes everything
+            let dom = if d == 1 { self.n } else { ((1usize << lg.min(40)) + plus as usize).min(self.n - (d - 1)) };
+            let mut counts = vec![dom];
+            if d > 1 {
+                let rest = self.n - dom;
+                for j in 0..d - 1 {
+                    counts.push(rest / (d - 1) + usize::from(j < rest % (d - 1)));
+                }
+            }
+            return counts;
+        }
         let w: Vec<f64> = match self.profile {
             Profile::Uniform => vec![1.0; d],
             Profile::Zipf(s) => (0..d)
@@ -265,7 +280,7 @@ impl Recipe {
             Profile::Fib => fib_weights(d),
             Profile::OneRare => (0..d).map(|j| if j == 0 { 1e9 } else { 1e-9 }).collect(),
             Profile::TwoFrequent => (0..d).map(|j| if j < 2 { 1e6 } else { 1.0 }).collect(),
-            Profile::Deep(_) | Profile::DeepChains(_) => unreachable!(),
+            Profile::Deep(_) | Profile::DeepChains(_) | Profile::DominantAt(..) => unreachable!(),
             Profile::Ties(g) => {
                 let g = g.max(1) as usize;
                 (0..d).map(|j| (1u64 << ((j / g).min(40))) as f64).collect()
@@ -530,6 +545,7 @@ fn profile() -> BoxedStrategy<Profile> {
         2 => Just(Profile::Deep(4)),
         2 => Just(Profile::Deep(2)),
         1 => Just(Profile::DeepChains(2)),
+        1 => (prop_oneof![Just(8u8), Just(12), Just(16), Just(17), Just(18), Just(20)], prop_oneof![Just(0u16), Just(1), 0u16..300]).prop_map(|(lg, plus)| Profile::DominantAt(lg, plus)),
     ]
     .boxed()
 }
